@@ -689,6 +689,7 @@ func cloneFresh(c *core.Ctx, e *eff.Engine, f *eff.Func) (string, token.Pos) {
 		})
 		return found
 	}
+	freshBusy := map[types.Object]bool{}
 	isFresh = func(x ast.Expr, depth int) (bool, string) {
 		if depth > 6 {
 			return false, "too deep"
@@ -714,6 +715,11 @@ func cloneFresh(c *core.Ctx, e *eff.Engine, f *eff.Func) (string, token.Pos) {
 			if len(defs) == 0 {
 				return true, "" // zero value / declared
 			}
+			if freshBusy[o] {
+				return true, "" // x = append(x, ...): decided by the other definitions of x
+			}
+			freshBusy[o] = true
+			defer delete(freshBusy, o)
 			for _, d := range defs {
 				if ok, why := isFresh(d, depth+1); !ok {
 					return false, why
@@ -758,6 +764,27 @@ func cloneFresh(c *core.Ctx, e *eff.Engine, f *eff.Func) (string, token.Pos) {
 								return false, "constructor argument " + why
 							}
 						}
+					}
+				}
+				return true, ""
+			}
+			// append(fresh, y...) with value-typed elements copies the elements into storage that y does not share
+			if nm == "append" && len(v.Args) >= 1 {
+				if ok0, why := isFresh(v.Args[0], depth+1); !ok0 {
+					return false, why
+				}
+				for i, a := range v.Args[1:] {
+					tv, ok := info.Types[a]
+					if !ok || !refKindType(tv.Type) {
+						continue
+					}
+					if v.Ellipsis.IsValid() && i == len(v.Args)-2 {
+						if sl, isSlice := tv.Type.Underlying().(*types.Slice); isSlice && !refKindType(sl.Elem()) {
+							continue
+						}
+					}
+					if okA, why := isFresh(a, depth+1); !okA {
+						return false, "appended " + why
 					}
 				}
 				return true, ""
